@@ -32,7 +32,7 @@ N = 2       # characters of the split node
 def build(kinds, at):
     """parent element with children of `kinds`; child `at` is the node to split"""
     k = len(kinds)
-    ids = [z3.BitVec("id%d" % i, 64) for i in range(k + 2)]      # 0 parent, 1..k children, k+1 the node split_at creates
+    ids = [z3.BitVec("id%d" % i, 64) for i in range(k + 3)]      # 0 parent, 1..k children, k+1 the node split_at creates, k+2 the document
     version = z3.BitVec("version", 64)
     # ids come from a counter that starts at 1: far from the top of the range
     cons = [z3.Distinct(*ids)] + [x != 0 for x in ids] + [z3.ULT(x, 1 << 62) for x in ids] + [z3.ULT(version, 1 << 62)]
@@ -44,10 +44,13 @@ def build(kinds, at):
         if registered:
             ordering.fields["order"].append(info)
         return K.mk_obj("Context", K.INFO, info=info, ordering=ordering, registry=registry)
+    dctx = ctx_for(k + 2, True)
     pctx = ctx_for(0, True)
-    parent = K.mk_obj("XmlElement", K.INFO, children=SVec(), context=pctx, parent_id=NONE)
+    parent = K.mk_obj("XmlElement", K.INFO, children=SVec(), attributes=SVec(), context=pctx, parent_id=Some(ids[k + 2]))
     pitem = K.mk_enum("XmlItem", K.INFO, "Element", parent)
     registry.append((ids[0], pitem))
+    document = K.mk_obj("XmlDocument", K.INFO, children=SVec([pitem]), context=Some(dctx))
+    registry.append((ids[k + 2], K.mk_enum("XmlItem", K.INFO, "Document", document)))
     s, cs = K.sym_str("s", N)
     cons.append(sym.to_z3(cs))
     items = []
@@ -56,6 +59,7 @@ def build(kinds, at):
         fields = {"context": ctx_for(i + 1, True), "parent_id": Some(ids[0])}
         if kind == "Element":
             fields["children"] = SVec()
+            fields["attributes"] = SVec()
         if field:
             fields[field] = SStr(s) if i == at else kernel.from_pystr("x")
         o = K.mk_obj(infot, K.INFO, **fields)
@@ -64,7 +68,7 @@ def build(kinds, at):
         items.append(it)
         parent.fields["children"].append(it)
     new_ctx = ctx_for(k + 1, False)
-    return parent, items, s, new_ctx, ids, z3.And(*cons), registry
+    return parent, items, s, new_ctx, ids, z3.And(*cons), registry, document
 
 
 def same_item(a, b):
@@ -74,7 +78,7 @@ def same_item(a, b):
 
 def decide_shape(kinds, at, timeout_s=60):
     I = K.new_interp("debug")
-    _, _, _, _, _, cons, _ = build(kinds, at)
+    _, _, _, _, _, cons, _, _ = build(kinds, at)
     I.assume(cons)
     offset = z3.BitVec("offset", 64)
     state = {}
@@ -85,7 +89,7 @@ def decide_shape(kinds, at, timeout_s=60):
         # info::XmlText::node / XmlCData::node: a new item with the next id, not yet in the order vector
         o = K.mk_obj(infot, K.INFO, **{field: SStr(text), "context": state["new_ctx"], "parent_id": parent_id})
         it = K.mk_enum("XmlItem", K.INFO, kind, o)
-        state["registry"].append((state["ids"][-1], it))
+        state["registry"].append((state["ids"][-2], it))
         state["new_item"] = it
         return it
 
@@ -95,11 +99,11 @@ def decide_shape(kinds, at, timeout_s=60):
                 return Some(it)
         return NONE
     I.stubs["%s::node" % infot] = node_stub
-    I.mstubs = {("Context", "node"): ctx_node}
+    I.mstubs = {("Context", "node"): ctx_node, ("Context", "document"): lambda I, c: state["document"]}
 
     def thunk(I):
-        parent, items, s, new_ctx, ids, _, registry = build(kinds, at)
-        state.update(new_ctx=new_ctx, ids=ids, registry=registry, new_item=None)
+        parent, items, s, new_ctx, ids, _, registry, document = build(kinds, at)
+        state.update(new_ctx=new_ctx, ids=ids, registry=registry, new_item=None, document=document)
         dom = K.mk_obj(DOMT[kind], K.DOM, data=items[at].fields[0])
         r = I.try_repo_method(dom, "split_text", [offset])
         kids = list(parent.fields["children"])
@@ -202,7 +206,7 @@ def obligations(rep, rp, tier, jobs_n=16):
             rep.inconclusive.append("split siblings %s@%d: %s" % (",".join(res["job"][0]), res["job"][1], res.get("error") or res.get("detail")))
     rep.bounds["split_text_siblings"] = {"children_per_element": "%d over all child kinds, %d over %s" % (kfull, kmax, core), "child_kinds": list(ITEM), "split_node_characters": N, "shapes": len(jobs),
                                          "outside": "attribute parents (attribute values); entity-reference children; more children than the bound"}
-    rep.assumptions.append("split_text siblings: Context::node(id) returns the registered item with that id; info::Xml{Text,CData}::node creates an item with a fresh id that is not yet in the order vector; the element has no parent")
+    rep.assumptions.append("split_text siblings: Context::node(id) returns the registered item with that id; info::Xml{Text,CData}::node creates an item with a fresh id that is not yet in the order vector; Context::document() returns the document item above the element")
     status = "holds"
     bad.sort(key=lambda r: (len(r["job"][0]), r["job"][1]))
     confirmed = None
